@@ -350,3 +350,70 @@ def contains(t: Term, needle: Term) -> bool:
     if isinstance(t, (tuple, frozenset)):
         return any(contains(x, needle) for x in t)
     return False
+
+
+def return_cases(world, fn, depth: int = 2, resolver=None):
+    """(facts, returned term, environment, description of the conditions, return node) for every returning path of fn.
+
+    When the returned expression is a call of a module-level function of the repository, the callee's returning paths
+    are spliced in with its parameters replaced by the argument terms, so moving the tail of a function into a helper
+    leaves the cases unchanged.  Raising paths of the helper are dropped (they do not return)."""
+    from .loader import module_of
+    from .paths import function_paths
+
+    out = []
+    for p in function_paths(fn):
+        if p.exit != 'return' or p.node is None or not isinstance(p.node, ast.Return) or p.node.value is None:
+            continue
+        env = path_env(p)
+        fs = facts(p, None, resolver)
+        txt = ' and '.join(ast.unparse(ev[1]) + ('' if ev[2] else ' [false]') for ev in p.events if ev[0] == 'cond')
+        val = p.node.value
+        callee = None
+        if depth > 0 and isinstance(val, ast.Call) and isinstance(val.func, ast.Name) and not val.keywords and not any(isinstance(a, ast.Starred) for a in val.args):
+            module = module_of(val)
+            q = world.qualify(module, val.func.id) if module is not None else None
+            node = world.lookup(q) if q else None
+            if isinstance(node, ast.FunctionDef) and not node.decorator_list and len(node.args.args) == len(val.args) and not node.args.vararg and not node.args.kwarg:
+                callee = node
+        if callee is None:
+            out.append((fs, term(val, env), env, txt, p.node))
+            continue
+        mapping = {('var', a.arg): term(v, env) for a, v in zip(callee.args.args, val.args)}
+        for cfs, crt, _cenv, ctxt, _n in return_cases(world, callee, depth - 1):
+            out.append((fs | {subst(f, mapping) for f in cfs}, subst(crt, mapping), env, ' and '.join(x for x in (txt, ctxt) if x), p.node))
+    return out
+
+
+def predicate_alternatives(world, module, fs: set[tuple], depth: int = 2) -> list[set[tuple]]:
+    """Expands facts of the form `helper(args)` is true, for boolean module-level helpers of the repository.
+
+    Returns the alternative fact sets (one per way the helpers can return true), each including fs itself; a caller
+    that needs a guard must find it in every alternative."""
+    from .paths import function_paths
+
+    alts: list[set[tuple]] = [set(fs)]
+    for f in sorted(fs, key=repr):
+        if not (f[0] == 'truth' and f[2] is True and isinstance(f[1], tuple) and f[1][0] == 'call' and f[1][1][0] == 'var' and not f[1][3]):
+            continue
+        q = world.qualify(module, f[1][1][1])
+        node = world.lookup(q) if q else None
+        if not isinstance(node, ast.FunctionDef) or node.decorator_list or len(node.args.args) != len(f[1][2]):
+            continue
+        mapping = {('var', a.arg): v for a, v in zip(node.args.args, f[1][2])}
+        ways: list[set[tuple]] = []
+        for p in function_paths(node):
+            if p.exit != 'return' or not isinstance(p.node, ast.Return) or p.node.value is None:
+                continue
+            v = p.node.value
+            if isinstance(v, ast.Constant) and v.value is False:
+                continue
+            pf = facts(p)
+            if not (isinstance(v, ast.Constant) and v.value is True):
+                env = path_env(p)
+                for atom, pol in split_cond(v, True):
+                    pf |= atom_facts(atom, pol, env)
+            ways.append({subst(x, mapping) for x in pf})
+        if ways:
+            alts = [a | w for a in alts for w in ways]
+    return alts
